@@ -23,4 +23,4 @@ TRUSTED = ["model: coq/theories/Model/Codec.v, ChkC09.v (hand written, tied byte
 ASSUMPTIONS = ["a bias is its fixed-width byte string (bit-for-bit round trip is what is proved; value-level equality follows for non-NaN)",
                "the order of constraints in a CQM is not part of the model (from_file iterates a set of labels)",
                "BQMs of dtype object are compared after conversion to float64 (documented behaviour of to_file)"]
-PARTIAL = ['float labels, non-ASCII and control-character strings are outside the modelled JSON subset (LabelsWF): covered by the implementation round trip only', 'ignore_labels_is_relabel is not a separate theorem: at file level ignore_labels only sets the label field to None (v2) / range(n) (v1), so it is the instance of bqm_decode_encode for that content; the relabelling itself is checked on the implementation (exact state comparison)', 'rebuilding the full adjacency from the lower triangles (add_quadratic_from_arrays / add_quadratic_back) is not modelled: the file-level record keeps what is in the file']
+PARTIAL = ['float labels, non-ASCII and control-character strings are outside the modelled JSON subset (LabelsWF): covered by the implementation round trip only (float repr / \\uXXXX escapes not modelled)', 'bqm_load_restores_adjacency_partial: the theorem replays the BQM loader with add_quadratic_back; the loader really calls add_quadratic (lower_bound + insert + `+=`): upsert_at_end shows one call appends when all keys are smaller, the induction that this holds at every call of a load is not done - the executable upsert replay is compared with the observed adjacency in every BQM case instead. 0.0 + bias is taken to be bias (false only for -0.0, which comes back as +0.0: equal as a value)', 'DQM files and the zip / npz containers are not modelled: numpy/zipfile locate the central directory from the END of the file (this is exactly what finding dqm_labels_over_64k is about), CRC and deflate are involved; only their member names/contents are observed (CExpr / CVarinfo / CLabels cases) and the round trip is compared exactly on the implementation', 'ignore_labels_is_relabel is not a separate theorem: at file level ignore_labels only changes the label field, so it is the instance of bqm_decode_encode for that content; the relabelling is checked on the implementation']
